@@ -441,9 +441,14 @@ def run(ctx: Ctx) -> None:
     ctx.rule('R16.3', 'fit_status success only for a valid fit inside the data range; fit_found = (status == success)', floor=15)
     ctx.rule('R16.4', 'fit function and its siblings are the documented ansatz with parameters in fit order; fit and bootstrap read one table', floor=11)
     ctx.trust('scipy.optimize.curve_fit, numpy median/quantile, pandas sort semantics; sympy (python3-vt)')
-    _r161(ctx)
+    with ctx.part():
+        _r161(ctx)
     from .c06 import class_mutable_rule
-    class_mutable_rule(ctx, 'R16.2', ['Analysis'])
-    _r162(ctx)
-    _r163(ctx)
-    _r164(ctx)
+    with ctx.part():
+        class_mutable_rule(ctx, 'R16.2', ['Analysis'])
+    with ctx.part():
+        _r162(ctx)
+    with ctx.part():
+        _r163(ctx)
+    with ctx.part():
+        _r164(ctx)
